@@ -18,7 +18,7 @@ CHECK = {'rule': "(a) exhaustive: every path of 1..N segments over {in,out,.,..,
 
 TEXT = {'technique': 'exhaustive small-alphabet path enumeration x all op forms x 18 view kinds, plus rapid-generated long paths and call sequences; '
               'containment oracle (parent tree outside the root unchanged, no outside content observable)',
- 'level_text': "Exploration with an exhaustive core: all paths up to 4 (disk 3) segments over {in,out,.,..,''} (thorough 6/5) for every op form and "
+ 'level_text': "Exploration with an exhaustive core: all paths up to 4 (disk 3) segments over {in,out,.,..,''} (thorough 5/4) for every op form and "
                'view kind, then random longer paths and sequences. Each call is judged by comparing the parent tree outside the view root '
                'before/after and by scanning every returned value for outside-only content.',
  'level_note': "Trusts the fixture construction and the walker; escaping paths may be rejected or clamped (both accepted); removal of a view's own "
